@@ -129,11 +129,29 @@ def gen_cases(rng, tier, scale):
         srcs.append(('{{h ' + '[' * depth + ']' * depth + '}}', 'deep-literal'))
     for k, (s, tag) in enumerate(srcs):
         cases.append({'line': probe_line(f's{k}', s), 'src': s, 'kind': tag, 'tpl': s, 'tags': [tag]})
+    # a rejected registration leaves the registry as it was — including the dev-mode file tracking of the name
+    for k2, bad in enumerate(['{{#if a}}x', '{{/if}}', '{{> }}', '{{#each a}}{{/if}}']):
+        for how in ('regs', 'regp'):
+            ops = ['dev 1', f'fw {x("f1")} {x("v1 {{x}}")}', f'regf {x("pg")} {x("f1")}', f'regs {x("use")} {x("[{{> pg}}]")}', 'keys',
+                   f'{how} {x("pg")} {x(bad)}', 'keys', f'fw {x("f1")} {x("v2 {{x}}")}',
+                   f'r 0 {x("pg")} {jtok({"x": "a"})} -1', f'r 0 {x("use")} {jtok({"x": "a"})} -1']
+            cases.append({'line': f'dvr{k2}{how} ' + ' ; '.join(ops), 'src': bad, 'kind': 'devreject', 'tpl': bad, 'tags': ['dev-rejected-registration']})
     return cases
 
 def oracle(c, io, mo):
     if io is None:
         return 'no output'
+    if c.get('kind') == 'devreject':
+        toks = io.split(' ')
+        from families.common import res_of as _r
+        from hblib import parse_robs
+        rs = [parse_robs(t) for t in toks if t.startswith('R:')]
+        ks = [t for t in toks if t.startswith('k[')]
+        if len(ks) == 2 and ks[0] != ks[1]:
+            return f'a rejected registration changed the key set: {ks}'
+        if len(rs) == 2 and (rs[0].get('out') != 'v2 a' or rs[1].get('out') != '[v2 a]'):
+            return f'after a rejected re-registration the file-backed template no longer follows its file: {rs[0].get("out", rs[0].get("reason"))!r}, {rs[1].get("out", rs[1].get("reason"))!r}'
+        return None
     if io in ('ABORT', 'TIMEOUT'):
         # the case also renders the compiled template once; a source whose inline partial includes itself
         # recurses without bound when RENDERED (the model reports FUEL at the render op and a value at every
